@@ -419,6 +419,7 @@ func init() {
 				errRulesFor(run, p, "primitives/x25519")
 				// in-place use (ScalarMult(&k, &k, &u), the RFC 7748 iteration) computes the same function
 				run.Sample(checkAliasing(al, p, []string{"primitives/x25519", "curve"}))
+				checkAliasSlice(p, run.Rule("ALIAS-slice", "a function with an output *T and a slice of T / *T finishes reading the slice elements before it first writes the output (the output may be one of the elements)", 15), false)
 				// the fixed-base routine reads the constant-time base-point tables
 				esib.CheckMaskedScan(run, p, "SIB-scan")
 			} else if id == "purego" {
@@ -429,6 +430,9 @@ func init() {
 			}
 			// u-coordinate decoding ignores bit 255 and accepts non-canonical values (reduced mod p by the arithmetic); encoding is canonical
 			elin.CheckField(run, p, "LIN")
+			// the ladder step multiplies, squares and scales by (A+2)/4: functional exactness of the limb
+			// code (Go in every configuration, the integer assembly in amd64) as identities in the limb products
+			elin.CheckMul(run, p, "MUL")
 			var names []string
 			for _, n := range econst.Names() {
 				// the fixed-base path multiplies the Edwards base point: its table (packed literal and the unpacking) and the base point itself
